@@ -4,17 +4,22 @@ import json
 
 ENGINE = "interpolate"
 RULE = ("documents generated as text from a spec: 0-4 @string definitions (before / after / duplicated / absent; values "
-        "quoted, braced, bare number, another key, concatenation) and 1-3 entries (occasionally a duplicate entry key, a "
+        "quoted, braced, bare number, another key, concatenation, nothing at all / blanks after the `=`, i.e. the empty content) "
+        "and 1-3 entries (occasionally a duplicate entry key, a "
         "duplicate field name, a malformed block) whose field values are drawn from {bare defined key, bare undefined key, "
         "'{key}', '\"key\"', other-case key, 'key # key', numbers, braced text}; split with parse_stack=[], then three "
-        "operations: resolve alone, default stack (real parse_string), swapped order. distinct = distinct (text, operation); "
+        "operations: resolve alone, default stack (real parse_string), swapped order; plus a two-call stream (oracle only): "
+        "some of the @string definitions are parsed by a first default parse_string call and the rest of the document by a second "
+        "parse_string(..., library=first) call, so that references are resolved against strings whose enclosing was already "
+        "removed. distinct = distinct (text, operation); "
         "non-trivial = some field value is a bare identifier or an enclosed look-alike of a defined key")
 TRUSTED = ["the splitter is not modelled in this engine: the model starts from the split library, the Python oracle checks "
            "the property on parse_string(text) with the default stack against the document spec"]
 ASSUMPTIONS = ["dict preserves insertion order; str equality is code-point list equality"]
 
 SKEYS = ["abc", "Abc", "ABC", "jan", "x1", "clé"]
-STRING_SRCS = ['"Value A"', "{Value {B}}", "1234", "abc", '"p" # abc', '"{q}"', "{}", '""', '"a" # "b"', "{x} # {y}", "{ sp }"]
+STRING_SRCS = ['"Value A"', "{Value {B}}", "1234", "abc", '"p" # abc', '"{q}"', "{}", '""', '"a" # "b"', "{x} # {y}", "{ sp }",
+               "", " ", '"0"', "{ }"]            # nothing after the `=`: the content is the empty string
 FNAMES = ["title", "author", "journal", "month", "year", "note"]
 
 
@@ -72,7 +77,19 @@ def gen_doc(rng):
     if rng.random() < 0.15:
         items.insert(rng.randint(0, len(items)), {"t": "raw", "text": rng.choice(["@comment{abc}", "abc", "@article{bad, title = abc",
                                                                                    "@preamble{abc}", "% abc = x"])})
+    # two-call stream: the definitions marked "early" are parsed by a first parse_string call, everything else by a second
+    # call on the library of the first (the mark is ignored by the single-call operations)
+    for it in strings:
+        if rng.random() < 0.6:
+            it["early"] = True
     return {"items": items, "style": rng.randint(0, 3)}
+
+
+def two_calls(doc):
+    """the documents of the two-call stream: (early @string definitions, everything else)"""
+    early = [it for it in doc["items"] if it["t"] == "string" and it.get("early")]
+    rest = [it for it in doc["items"] if not (it["t"] == "string" and it.get("early"))]
+    return dict(doc, items=early), dict(doc, items=rest)
 
 
 def render(doc):
@@ -98,6 +115,8 @@ def generate(rng, tier):
         doc = gen_doc(rng)
         for op in (110, 111, 112):
             cases.append({"stream": {110: "resolve", 111: "default", 112: "swapped"}[op], "input": {"doc": doc, "op": op}})
+        if any(it["t"] == "string" and it.get("early") for it in doc["items"]):
+            cases.append({"stream": "two-call", "input": {"doc": doc, "op": 113}})
     return cases
 
 
@@ -127,17 +146,25 @@ def is_bare_ident(src):
     return src != "" and not any(c in src for c in '{}"#, \t\n=') and not src.isdigit()
 
 
-def oracle_default(doc, lib):
-    items = doc["items"]
+def oracle_default(doc, lib, early=None):
+    """the property on the library obtained by default parsing of `doc`; with `early`, on the library obtained by default
+    parsing of `early` (definitions only) followed by default parsing of `doc` into the same library"""
+    items = (early["items"] if early else []) + doc["items"]
+    n_early = len(early["items"]) if early else 0
     first = {}
-    for it in items:
+    for i, it in enumerate(items):
         if it["t"] == "string" and it["key"] not in first:
-            first[it["key"]] = it["src"]
-    # strings stay, first definition per key, in order, with their own content
+            first[it["key"]] = (it["src"], i < n_early)
+    # strings stay, first definition per key, in order, with their own content (a definition that went through an earlier
+    # call may have had an enclosing removed once per call)
     got_strings = [(s.key, s.value) for s in lib.strings]
-    exp_strings = [(k, content(v)) for k, v in first.items()]
-    if got_strings != exp_strings:
-        return False, "library.strings = %r, expected %r" % (got_strings, exp_strings)
+    if [k for k, _ in got_strings] != list(first):
+        return False, "library.strings = %r, expected the keys %r" % (got_strings, list(first))
+    for (k, v), (src, was_early) in zip(got_strings, first.values()):
+        allowed = [content(src)] + ([content(content(src))] if was_early else [])
+        if not (isinstance(v, str) and v in allowed):
+            return False, "library.strings = %r: @string %s (source %r) holds %r, expected %r" % (got_strings, k, src, v, allowed[-1])
+    reported = dict(got_strings)                      # the content of each defined string, whatever it is ('' included)
     seen = set()
     live = {e.key: e for e in lib.entries}
     for it in items:
@@ -157,16 +184,41 @@ def oracle_default(doc, lib):
         resolved = e.parser_metadata.get("ResolveStringReferences", [])
         exp_resolved = []
         for f, (n, src) in zip(e.fields, it["fields"]):
+            why = ""
             if is_bare_ident(src) and src in first:
-                exp = content(first[src])
+                exp = reported[src]
                 exp_resolved.append(n)
+                why = " (the content of the first @string %s, source %r)" % (src, first[src][0])
             else:
                 exp = content(src)
             if not (isinstance(f.value, str) and f.value == exp):
-                return False, "entry %s field %s (source %r) holds %r, expected %r" % (it["key"], n, src, f.value, exp)
+                return False, "entry %s field %s (source %r) holds %r, expected %r%s" % (it["key"], n, src, f.value, exp, why)
         if list(resolved) != exp_resolved:
             return False, "entry %s records resolved fields %r, expected %r" % (it["key"], resolved, exp_resolved)
     return True, ""
+
+
+def impl_two_calls(doc):
+    """oracle only: the early definitions are parsed first, the rest of the document into the same library"""
+    import implutil
+    import bibtexparser
+    early, rest = two_calls(doc)
+    t1, t2 = render(early), render(rest)
+    rec = {"sx_in": None, "sx_out": None, "key": json.dumps([t1, t2, 113]), "tags": []}
+    keys = set(it["key"] for it in doc["items"] if it["t"] == "string")
+    rec["nontrivial"] = any(s.strip('{}"') in keys for it in rest["items"] if it["t"] == "entry" for _, s in it["fields"])
+    r = implutil.guarded(lambda: bibtexparser.parse_string(t2, library=bibtexparser.parse_string(t1)))
+    if r[0] == "exc":
+        rec["oracle"] = {"ok": False, "detail": "parsing raised %s on %r then %r" % (r[2], t1, t2)}
+        rec["summary"] = "raised " + r[2]
+        return rec
+    lib = r[1]
+    ok, detail = oracle_default(rest, lib, early=early)
+    rec["oracle"] = {"ok": ok, "detail": detail + ("" if ok else " after parse_string(%r) then parse_string(%r, library=<the first result>)" % (t1, t2))}
+    rec["tags"].append("two-call-resolved-some" if any("ResolveStringReferences" in e.parser_metadata for e in lib.entries)
+                       else "two-call-resolved-none")
+    rec["summary"] = repr([[(f.key, f.value) for f in e.fields] for e in lib.entries])[:200]
+    return rec
 
 
 def impl(case):
@@ -177,6 +229,8 @@ def impl(case):
     from bibtexparser.middlewares import ResolveStringReferencesMiddleware, RemoveEnclosingMiddleware
     inp = case["input"]
     doc, op = inp["doc"], inp["op"]
+    if op == 113:
+        return impl_two_calls(doc)
     text = render(doc)
     # the split library, as the block list it is built from (duplicate wrappers unwrapped)
     split0 = bibtexparser.parse_string(text, parse_stack=[])
